@@ -128,13 +128,19 @@ def _eval(c, armed, e, ent, tok, path):
         return meaning(c, armed, w, q, path)
     if k == "o1":
         _, o, a = e
-        inner = 0 if (o == 1 or rs.is_role_op(o)) else (1 if o == 2 else ent)
+        inner = 0 if (o == 1 or rs.is_role_op(o)) else (1 if (o == 2 or rs.is_proj_op(o)) else ent)
         x = _eval(c, armed, a, inner, tok, path)
+
+        def match(r, rho):           # has_role: a flattened role; 9 = everybody; 8 = a first role with its two sub-roles
+            return r == rs.NO_ROLE or rho == r or (r == rs.TOP_ROLE and rho < 2)
+        if rs.is_proj_op(o):         # household.project(x, role): the household's value for the role holders, 0 for the others
+            roles = list(getattr(c, "roles", None) or [0] * c.nP)
+            return [x[c.mem[i]] if match(o % 10, roles[i]) else 0 for i in range(c.nP)]
         if rs.is_role_op(o):
             # role operations, from the definition: the members of household g that hold role r
             r = o % 10
             roles = list(getattr(c, "roles", None) or [0] * c.nP)
-            holders = [[i for i in range(c.nP) if c.mem[i] == g and roles[i] == r] for g in range(c.nG)]
+            holders = [[i for i in range(c.nP) if c.mem[i] == g and match(r, roles[i])] for g in range(c.nG)]
             if o < 20:
                 return [sum(x[i] for i in hs) for hs in holders]
             if o < 30:                       # the unique holder's value, the default 0 without holder
@@ -145,8 +151,6 @@ def _eval(c, armed, e, ent, tok, path):
                 return [len(hs) for hs in holders]
             if o < 50:
                 return [1 if any(x[i] != 0 for i in hs) else 0 for hs in holders]
-            if r == rs.NO_ROLE:                  # reductions without role filter: every member
-                holders = [[i for i in range(c.nP) if c.mem[i] == g] for g in range(c.nG)]
             if o < 60:
                 return [max(x[i] for i in hs) if hs else 0 for hs in holders]
             if o < 70:
